@@ -91,6 +91,10 @@ func vhSymAdv() (IPAdvertisement, vhAdv) {
 	d := vhAdv{held: true, ip: vhSymAdvIP(), all: vr.Bool()}
 	// the interface set has two symbolic members, so membership is decided lazily at lookup time
 	ifs := sets.New[string]()
+	if vr.Bool() {
+		// no interface at all (no L2Advertisement selecting this node contributes one)
+		return NewIPAdvertisement(d.ip, d.all, ifs), d
+	}
 	k0 := vr.PickString("eth0", "absent0")
 	k1 := vr.PickString("eth1", "absent1")
 	ifs.Insert(k0)
@@ -251,22 +255,18 @@ func VerifARPRequest() {
 		panic(err)
 	}
 	pb, _ := pkt.MarshalBinary()
-	var dst net.HardwareAddr
-	switch vr.Choose(3) {
-	case 0:
-		dst = ethernet.Broadcast
-	case 1:
-		dst = vhMyMAC
-	case 2:
-		dst = net.HardwareAddr{0x02, 0, 0, 0, 0, 0x77} // somebody else
+	// the Ethernet destination is arbitrary: broadcast, ours, or any other unicast / group address
+	dst := net.HardwareAddr{vr.Byte(), vr.Byte(), vr.Byte(), vr.Byte(), vr.Byte(), vr.Byte()}
+	toBroadcast, toMe := true, true
+	for i := 0; i < 6; i++ {
+		toBroadcast = vr.And(toBroadcast, dst[i] == 0xff)
+		toMe = vr.And(toMe, dst[i] == vhMyMAC[i])
 	}
 	w.in = [][]byte{vhFrame(dst, reqMAC, pb)}
 	w.out = nil
 	r.processRequest()
 	want := vr.And(op == 1, vr.And(held, vr.And(target.Equal(d.ip), d.covers("eth0"))))
-	if dst[5] == 0x77 {
-		want = false
-	}
+	want = vr.And(want, vr.Or(toBroadcast, toMe))
 	vr.Assert((len(w.out) == 1) == want, "ARP request answered iff the address is announced on the interface (and it is a request to us)")
 	if len(w.out) == 1 {
 		f := w.out[0]
